@@ -120,6 +120,23 @@ func (ns *normState) unknownCallees() map[types.Object]*inlCallee {
 		}
 	}
 	aliased := methodToFuncAliases(ns.pkgs)
+	// an unknown function with the receiver and signature of a MISSING canonical function may be that
+	// function under a new name (several candidates: the role-based anchors decide): it is not inlined
+	missingSig := map[string]bool{}
+	{
+		have := map[string]bool{}
+		for short, pk := range ns.pkgs {
+			for _, f := range declaredFuncs(pk) {
+				sig := f.Type().(*types.Signature)
+				have[short+"|"+recvStr(sig)+"|"+f.Name()] = true
+			}
+		}
+		for k, cf := range cset {
+			if !have[k] {
+				missingSig[cf.Pkg+"|"+cf.Recv+"|"+cf.Sig] = true
+			}
+		}
+	}
 	for short, pk := range ns.pkgs {
 		for _, file := range pk.Syntax {
 			for _, d := range file.Decls {
@@ -141,6 +158,9 @@ func (ns *normState) unknownCallees() map[types.Object]*inlCallee {
 					continue
 				}
 				if sig.TypeParams() != nil || sig.RecvTypeParams() != nil {
+					continue
+				}
+				if missingSig[short+"|"+recvStr(sig)+"|"+sigStr(sig)] {
 					continue
 				}
 				if sig.Recv() != nil && ifaceMeth[fn.Name()] {
